@@ -840,7 +840,8 @@ func (vc *VC) evalCall(env *Env, t CCall) Term {
 	case "allocated":
 		x := vc.evalTerm(env, t.Args[0])
 		oa := vc.heapGet(env.cur, vc.allocKey())
-		return tBool(fmt.Sprintf("(and (< 0 %s) (< %s %s))", x.S, x.S, oa.S))
+		// allocated(x): x is not a reference that a later allocation can return (nil included)
+		return tBool(fmt.Sprintf("(< %s %s)", x.S, oa.S))
 	case "str":
 		// str(bs): the string with the current contents of byte slice bs
 		x := vc.evalTerm(env, t.Args[0])
